@@ -174,9 +174,9 @@ Qed.
 
 Lemma do_enable_InvF s : InvF s -> InvF (fst (do_enable s)).
 Proof.
-  intros HF. unfold do_enable. destruct HF as [J1 J2]. cbn [fst].
-  constructor; unfold ffin, ro in *; ssimp; auto.
-  intros A B. destruct (supportsRSA s); auto.
+  intros HF. unfold do_enable. destruct (isSome (resetErr s)) eqn:ER; [exact HF|].
+  destruct HF as [J1 J2]. cbn [fst]. constructor; unfold ffin, ro in *; ssimp; auto.
+  intros A. destruct (resetErr s); [discriminate|congruence].
 Qed.
 
 Lemma simple_InvF s s' : core3 s = core3 s' -> InvF s -> InvF s'.
